@@ -75,13 +75,21 @@ Section XmrProofs.
   Hypothesis lens_sub : forall d k e e', (k <= d)%nat ->
     nth_error enc_lens d = Some e -> nth_error enc_lens (d - k) = Some e' -> (k + e' <= e)%nat.
 
+  Hypothesis lens_ge : forall d e, nth_error enc_lens d = Some e -> (d <= e)%nat.
+  Hypothesis lens_min : forall d e k, nth_error enc_lens d = Some e -> (k < e)%nat ->
+    (d <= k + length (to_le 256 (radix ^ N.of_nat (e - k - 1))))%nat.
+
   Notation b58enc := (b58enc alph radix).
   Notation b58dec := (b58dec alph radix).
   Notation pad := (pad alph).
   Notation enc_blocks := (enc_blocks alph radix dec_max enc_max).
-  Notation dec_blocks := (dec_blocks alph radix dec_max enc_max).
+  Notation dec_block := (dec_block alph radix).
+  Notation dec_block_current := (dec_block_current alph radix).
+  Notation dec_blocks := (dec_blocks dec_max enc_max).
+  Notation decode_gen := (decode_gen dec_max enc_max enc_lens).
   Notation encode := (Base58Xmr.encode alph radix dec_max enc_max enc_lens).
   Notation decode := (Base58Xmr.decode alph radix dec_max enc_max enc_lens).
+  Notation decode_current := (Base58Xmr.decode_current alph radix dec_max enc_max enc_lens).
   Notation a0 := (Base58.a0 alph).
 
   Let b58_decode_encode := Lemmas.Base58.decode_encode alph radix alph_nodup alph_len radix_ge2.
@@ -140,19 +148,21 @@ Section XmrProofs.
     apply skipn_app_exact, repeat_length.
   Qed.
 
-  (* one block: encoder output has exactly the table width, Base58-decodes, and the unpad slice
-     (start = number of pad bytes >= 0) gives the block back *)
+  (* one block: encoder output has exactly the table width, Base58-decodes, passes the value check, and
+     the unpad slice (start = number of pad bytes >= 0) gives the block back *)
   Lemma block_roundtrip blk d e : bytes_ok blk -> length blk = d -> nth_error enc_lens d = Some e ->
-    length (pad e (b58enc blk)) = e /\
-    exists dec, b58dec (pad e (b58enc blk)) = Ok dec /\ (d <= length dec)%nat /\ unpad d dec = blk.
+    length (pad e (b58enc blk)) = e /\ dec_block d (pad e (b58enc blk)) = Ok blk.
   Proof.
     intros Hb Hl He. split.
     - apply pad_length. eapply b58enc_length; eauto.
-    - rewrite pad_is_encode. set (j := (e - length (b58enc blk))%nat).
-      exists (repeat 0 j ++ blk). split; [|split].
-      + apply b58_decode_encode. apply bytes_ok_app. split; [apply bytes_ok_repeat0|exact Hb].
-      + rewrite app_length. lia.
-      + subst d. apply unpad_zeros.
+    - unfold Base58Xmr.dec_block. rewrite pad_is_encode. set (j := (e - length (b58enc blk))%nat).
+      change (Base58Xmr.b58dec alph radix (Base58Xmr.b58enc alph radix (repeat 0 j ++ blk)))
+        with (Base58.decode alph radix (Base58.encode alph radix (repeat 0 j ++ blk))).
+      rewrite b58_decode_encode by (apply bytes_ok_app; split; [apply bytes_ok_repeat0|exact Hb]).
+      cbn [bind Ok]. rewrite be_to_int_zeros.
+      pose proof (be_to_int_lt blk Hb) as L. rewrite Hl in L.
+      destruct (N.ltb_spec (be_to_int blk) (256 ^ N.of_nat d)); [|exfalso; lia].
+      subst d. rewrite unpad_zeros. reflexivity.
   Qed.
 
   Lemma enc_blocks_length cnt : forall b, bytes_ok b -> length b = (cnt * dec_max)%nat ->
@@ -166,19 +176,19 @@ Section XmrProofs.
   Qed.
 
   Lemma dec_enc_blocks cnt : forall b ts, bytes_ok b -> length b = (cnt * dec_max)%nat ->
-    dec_blocks cnt (enc_blocks cnt b ++ ts) = Ok b.
+    dec_blocks dec_block cnt (enc_blocks cnt b ++ ts) = Ok b.
   Proof.
     induction cnt as [|c IH]; intros b ts Hb Hl.
     - destruct b; [reflexivity|discriminate].
     - cbn [Base58Xmr.enc_blocks Base58Xmr.dec_blocks].
       assert (L1 : length (firstn dec_max b) = dec_max) by (rewrite firstn_length; simpl in Hl; lia).
       destruct (block_roundtrip (firstn dec_max b) dec_max enc_max (bytes_ok_firstn _ _ Hb) L1 lens_max)
-        as (P & dec & D & _ & U).
+        as (P & D).
       rewrite <- app_assoc.
       rewrite (firstn_app_exact enc_max _ _ P), (skipn_app_exact enc_max _ _ P).
       rewrite D. cbn [bind Ok]. rewrite IH;
         [|apply bytes_ok_skipn; auto|rewrite skipn_length; simpl in Hl; lia].
-      cbn [bind Ok]. rewrite U. unfold Ok. f_equal. apply firstn_skipn.
+      cbn [bind Ok]. unfold Ok. f_equal. apply firstn_skipn.
   Qed.
 
   Lemma enc_blocks_prefix cnt : forall b tl, length b = (cnt * dec_max)%nat ->
@@ -217,9 +227,9 @@ Section XmrProofs.
       { unfold slice. fold tl. replace (cnt * dec_max + last - cnt * dec_max)%nat with last by lia.
         rewrite <- Ltl. apply firstn_all. }
       rewrite Etl. eexists; split; [reflexivity|].
-      destruct (block_roundtrip tl last e Btl Ltl He) as (P & dec & D & _ & U).
+      destruct (block_roundtrip tl last e Btl Ltl He) as (P & D).
       pose proof (lens_lt last e LB He) as Elt.
-      unfold Base58Xmr.decode. rewrite app_length, Lfull, P.
+      unfold Base58Xmr.decode, Base58Xmr.decode_gen. rewrite app_length, Lfull, P.
       assert (Q : ((cnt * enc_max + e) / enc_max = cnt)%nat).
       { symmetry. apply (Nat.div_unique _ _ _ e); lia. }
       assert (R : ((cnt * enc_max + e) mod enc_max = e)%nat).
@@ -234,12 +244,12 @@ Section XmrProofs.
       destruct (Nat.ltb_spec 0 e); [|lia].
       unfold slice. rewrite <- Lfull, skipn_app_exact by reflexivity.
       replace (length (enc_blocks cnt hd) + e - length (enc_blocks cnt hd))%nat with e by lia.
-      rewrite <- P at 1. rewrite firstn_all. rewrite D. cbn [bind Ok]. rewrite U.
+      rewrite <- P at 1. rewrite firstn_all. rewrite D. cbn [bind Ok].
       rewrite <- Hsplit. reflexivity.
     - (* only full blocks *)
       assert (last = 0%nat) by lia. eexists; split; [reflexivity|].
       assert (tl = []) by (destruct tl; [reflexivity|simpl in Ltl; lia]).
-      unfold Base58Xmr.decode. rewrite Lfull.
+      unfold Base58Xmr.decode, Base58Xmr.decode_gen. rewrite Lfull.
       rewrite Nat.div_mul, Nat.mod_mul by lia.
       rewrite (index_of_nat_nodup _ lens_nodup _ _ lens_0). cbn [of_option bind Ok].
       rewrite <- (app_nil_r (enc_blocks cnt hd)), (dec_enc_blocks cnt hd _ Bhd Lhd). cbn [bind Ok].
@@ -249,10 +259,6 @@ Section XmrProofs.
 
   (* ------------------------------------------------------------------------------------------
      Blocks that were not produced by the encoder (material for property C10).               *)
-
-  Hypothesis lens_ge : forall d e, nth_error enc_lens d = Some e -> (d <= e)%nat.
-  Hypothesis lens_min : forall d e k, nth_error enc_lens d = Some e -> (k < e)%nat ->
-    (d <= k + length (to_le 256 (radix ^ N.of_nat (e - k - 1))))%nat.
 
   Notation sym_index := (Base58.sym_index alph).
   Notation block_value := (Base58Xmr.block_value alph radix).
@@ -394,5 +400,202 @@ Section XmrProofs.
         rewrite lead_count_repeat_plus, be_to_int_zeros, repeat_app, <- app_assoc. reflexivity. }
       unfold Base58Xmr.pad. rewrite <- C'. f_equal. f_equal.
       rewrite <- Hl, <- C', app_length, repeat_length. lia.
+  Qed.
+
+  (* ------------------------------------------------------------------------------------------
+     The decoder with the block-value check: canonicity, acceptance, error classes; and its
+     relation to the decoder of the current code.                                              *)
+
+  Lemma firstn_add {A} a b (l : list A) : firstn (a + b) l = firstn a l ++ firstn b (skipn a l).
+  Proof.
+    revert l; induction a as [|a IH]; intros l; [reflexivity|].
+    destruct l as [|x l]; [simpl; rewrite firstn_nil; reflexivity|]. simpl. f_equal. apply IH.
+  Qed.
+
+  Lemma dec_block_spec d e t U : nth_error enc_lens d = Some e -> length t = e -> dec_block d t = Ok U ->
+    length U = d /\ bytes_ok U /\ pad e (b58enc U) = t.
+  Proof.
+    intros He Hl. unfold Base58Xmr.dec_block. destruct (b58dec t) as [dec|] eqn:D; cbn [bind]; [|discriminate].
+    destruct (N.ltb_spec (be_to_int dec) (256 ^ N.of_nat d)) as [V|]; [|discriminate].
+    intros E. assert (EU : U = unpad d dec) by (unfold Ok in E; congruence). subst U. clear E.
+    pose proof (block_dec_length _ _ _ _ He Hl D) as Ld.
+    destruct (b58dec_value _ _ D) as [BV Bd].
+    split; [|split].
+    - rewrite (unpad_skipn _ _ Ld), skipn_length. lia.
+    - rewrite (unpad_skipn _ _ Ld). apply bytes_ok_skipn; exact Bd.
+    - apply (block_canonical_iff t d e dec _ He Hl D BV). exact V.
+  Qed.
+
+  Lemma dec_block_current_of d t U : dec_block d t = Ok U -> dec_block_current d t = Ok U.
+  Proof.
+    unfold Base58Xmr.dec_block, Base58Xmr.dec_block_current.
+    destruct (b58dec t) as [dec|]; cbn [bind]; [|discriminate].
+    destruct (be_to_int dec <? 256 ^ N.of_nat d); [auto|discriminate].
+  Qed.
+
+  Lemma dec_block_err d t e : dec_block d t = Err e -> e = ValueError.
+  Proof.
+    unfold Base58Xmr.dec_block. destruct (b58dec t) as [dec|e'] eqn:D; cbn [bind].
+    - destruct (be_to_int dec <? 256 ^ N.of_nat d); [discriminate|]. unfold Err. congruence.
+    - intros E. assert (e' = e) by (unfold Err in E; congruence). subst e'.
+      eapply Lemmas.Base58.decode_err; exact D.
+  Qed.
+
+  Lemma dec_block_current_err d t e : dec_block_current d t = Err e -> e = ValueError.
+  Proof.
+    unfold Base58Xmr.dec_block_current. destruct (b58dec t) as [dec|e'] eqn:D; cbn [bind]; [discriminate|].
+    intros E. assert (e' = e) by (unfold Err in E; congruence). subst e'.
+    eapply Lemmas.Base58.decode_err; exact D.
+  Qed.
+
+  Section Generic.
+    Variables f g : nat -> list N -> res (list N).
+    Hypothesis fg : forall d t x, f d t = Ok x -> g d t = Ok x.
+    Hypothesis f_err : forall d t e, f d t = Err e -> e = ValueError.
+
+    Lemma dec_blocks_mono cnt : forall s b, dec_blocks f cnt s = Ok b -> dec_blocks g cnt s = Ok b.
+    Proof.
+      induction cnt as [|c IH]; intros s b; [auto|]. cbn [Base58Xmr.dec_blocks].
+      destruct (f dec_max (firstn enc_max s)) as [d|] eqn:F; cbn [bind]; [|discriminate].
+      rewrite (fg _ _ _ F). cbn [bind Ok].
+      destruct (dec_blocks f c (skipn enc_max s)) as [r|] eqn:R; cbn [bind]; [|discriminate].
+      rewrite (IH _ _ R). auto.
+    Qed.
+
+    Lemma decode_gen_mono s b : decode_gen f s = Ok b -> decode_gen g s = Ok b.
+    Proof.
+      unfold Base58Xmr.decode_gen.
+      destruct (index_of_nat _ enc_lens) as [ld|]; cbn [of_option bind]; [|discriminate].
+      destruct (dec_blocks f _ s) as [full|] eqn:F; cbn [bind]; [|discriminate].
+      rewrite (dec_blocks_mono _ _ _ F). cbn [bind Ok].
+      destruct (0 <? _)%nat; [|auto].
+      destruct (f ld _) as [d|] eqn:Fl; cbn [bind]; [|discriminate].
+      rewrite (fg _ _ _ Fl). auto.
+    Qed.
+
+    Lemma dec_blocks_err cnt : forall s e, dec_blocks f cnt s = Err e -> e = ValueError.
+    Proof.
+      induction cnt as [|c IH]; intros s e; [discriminate|]. cbn [Base58Xmr.dec_blocks].
+      destruct (f dec_max (firstn enc_max s)) as [d|e1] eqn:F; cbn [bind].
+      - destruct (dec_blocks f c (skipn enc_max s)) as [r|e2] eqn:R; cbn [bind]; [discriminate|].
+        intros E. assert (e2 = e) by (unfold Err in E; congruence). subst. eauto.
+      - intros E. assert (e1 = e) by (unfold Err in E; congruence). subst. eauto.
+    Qed.
+
+    Lemma decode_gen_err s e : decode_gen f s = Err e -> e = ValueError.
+    Proof.
+      unfold Base58Xmr.decode_gen.
+      destruct (index_of_nat _ enc_lens) as [ld|]; cbn [of_option bind Err Ok];
+        [|intros E; unfold Err in E; congruence].
+      destruct (dec_blocks f _ s) as [full|e1] eqn:F; cbn [bind].
+      - destruct (0 <? _)%nat; [|discriminate].
+        destruct (f ld _) as [d|e2] eqn:Fl; cbn [bind]; [discriminate|].
+        intros E. assert (e2 = e) by (unfold Err in E; congruence). subst. eauto.
+      - intros E. assert (e1 = e) by (unfold Err in E; congruence). subst. eapply dec_blocks_err; eauto.
+    Qed.
+  End Generic.
+
+  (* the repaired decoder only ever rejects more: whatever it accepts the current code accepts identically *)
+  Theorem decode_current_of s b : decode s = Ok b -> decode_current s = Ok b.
+  Proof. apply decode_gen_mono. exact dec_block_current_of. Qed.
+
+  Theorem decode_err s e : decode s = Err e -> e = ValueError.
+  Proof. apply decode_gen_err. exact dec_block_err. Qed.
+  Theorem decode_current_err s e : decode_current s = Err e -> e = ValueError.
+  Proof. apply decode_gen_err. exact dec_block_current_err. Qed.
+
+  Theorem decode_current_encode b : bytes_ok b -> exists s, encode b = Ok s /\ decode_current s = Ok b.
+  Proof.
+    intros Hb. destruct (decode_encode b Hb) as (s & E & D). exists s. split; [exact E|].
+    apply decode_current_of; exact D.
+  Qed.
+
+  Lemma dec_blocks_canon cnt : forall s b, (cnt * enc_max <= length s)%nat ->
+    dec_blocks dec_block cnt s = Ok b ->
+    length b = (cnt * dec_max)%nat /\ bytes_ok b /\ enc_blocks cnt b = firstn (cnt * enc_max) s.
+  Proof.
+    induction cnt as [|c IH]; intros s b Hl.
+    - cbn. intros E. assert (b = []) by (unfold Ok in E; congruence). subst. repeat split; constructor.
+    - cbn [Base58Xmr.dec_blocks].
+      destruct (dec_block dec_max (firstn enc_max s)) as [U|] eqn:D; cbn [bind]; [|discriminate].
+      destruct (dec_blocks dec_block c (skipn enc_max s)) as [r|] eqn:R; cbn [bind]; [|discriminate].
+      intros E. assert (b = U ++ r) by (unfold Ok in E; congruence). subst b. clear E.
+      assert (L1 : length (firstn enc_max s) = enc_max) by (rewrite firstn_length; simpl in Hl; lia).
+      destruct (dec_block_spec _ _ _ _ lens_max L1 D) as (LU & BU & PU).
+      assert (Hl2 : (c * enc_max <= length (skipn enc_max s))%nat) by (rewrite skipn_length; simpl in Hl; lia).
+      destruct (IH _ _ Hl2 R) as (Lr & Br & Er).
+      split; [|split].
+      + rewrite app_length. simpl. lia.
+      + apply bytes_ok_app; auto.
+      + cbn [Base58Xmr.enc_blocks].
+        rewrite (firstn_app_exact dec_max _ _ LU), (skipn_app_exact dec_max _ _ LU), PU, Er.
+        change (S c * enc_max)%nat with (enc_max + c * enc_max)%nat. rewrite firstn_add. reflexivity.
+  Qed.
+
+  (* canonicity: every accepted string is the encoding of the bytes it decodes to *)
+  Theorem encode_decode s b : decode s = Ok b -> encode b = Ok s /\ bytes_ok b.
+  Proof.
+    pose proof enc_max_pos as EP. assert (Hem : enc_max <> 0%nat) by lia.
+    assert (Hdm : dec_max <> 0%nat) by lia.
+    unfold Base58Xmr.decode, Base58Xmr.decode_gen. cbv zeta.
+    set (cnt := (length s / enc_max)%nat). set (last := (length s mod enc_max)%nat).
+    pose proof (Nat.div_mod (length s) enc_max Hem) as DM. fold cnt last in DM.
+    pose proof (Nat.mod_upper_bound (length s) enc_max Hem) as LB. fold last in LB.
+    destruct (index_of_nat last enc_lens) as [ld|] eqn:I; cbn [of_option bind Ok Err]; [|discriminate].
+    apply index_of_nat_nth in I.
+    destruct (dec_blocks dec_block cnt s) as [full|] eqn:F; cbn [bind]; [|discriminate].
+    destruct (dec_blocks_canon cnt s full ltac:(lia) F) as (Lf & Bf & Ef).
+    destruct (Nat.ltb_spec 0 last) as [Hpos|Hz].
+    - set (tl := slice (cnt * enc_max) (cnt * enc_max + last) s).
+      destruct (dec_block ld tl) as [U|] eqn:D; cbn [bind]; [|discriminate].
+      intros E. assert (b = full ++ U) by (unfold Ok in E; congruence). subst b. clear E.
+      assert (Etl : tl = skipn (cnt * enc_max) s).
+      { unfold tl, slice. replace (cnt * enc_max + last - cnt * enc_max)%nat with last by lia.
+        apply firstn_all2. rewrite skipn_length. lia. }
+      assert (Ltl : length tl = last) by (rewrite Etl, skipn_length; lia).
+      destruct (dec_block_spec _ _ _ _ I Ltl D) as (LU & BU & PU).
+      assert (Hld : (ld < dec_max)%nat).
+      { assert (ld < length enc_lens)%nat by (apply nth_error_Some; congruence).
+        destruct (Nat.eq_dec ld dec_max) as [->|]; [|lia]. rewrite lens_max in I.
+        assert (enc_max = last) by congruence. lia. }
+      assert (Hld0 : (0 < ld)%nat).
+      { destruct ld; [|lia]. rewrite lens_0 in I. assert (0%nat = last) by congruence. lia. }
+      split; [|apply bytes_ok_app; auto].
+      unfold Base58Xmr.encode. rewrite app_length, Lf, LU.
+      assert (Q : ((cnt * dec_max + ld) / dec_max = cnt)%nat).
+      { symmetry. apply (Nat.div_unique _ _ _ ld); lia. }
+      assert (R : ((cnt * dec_max + ld) mod dec_max = ld)%nat).
+      { symmetry. apply (Nat.mod_unique _ _ cnt ld); lia. }
+      rewrite Q, R. destruct (Nat.ltb_spec 0 ld); [|lia].
+      rewrite I. cbn [of_option bind Ok].
+      rewrite (enc_blocks_prefix cnt full U Lf), Ef.
+      unfold slice. rewrite <- Lf, skipn_app_exact by reflexivity.
+      replace (length full + ld - length full)%nat with ld by lia.
+      rewrite <- LU at 1. rewrite firstn_all, PU, Etl, firstn_skipn. reflexivity.
+    - intros E. assert (b = full) by (unfold Ok in E; congruence). subst b. clear E.
+      split; [|exact Bf].
+      unfold Base58Xmr.encode. rewrite Lf, Nat.div_mul, Nat.mod_mul by lia.
+      change (0 <? 0)%nat with false. cbv iota. rewrite Ef.
+      rewrite firstn_all2 by lia. reflexivity.
+  Qed.
+
+  (* acceptance: the decoder accepts exactly the image of the encoder *)
+  Theorem decode_accepts_iff s :
+    (exists b, decode s = Ok b) <-> (exists b, bytes_ok b /\ encode b = Ok s).
+  Proof.
+    split.
+    - intros [b D]. exists b. destruct (encode_decode _ _ D); auto.
+    - intros (b & Hb & E). destruct (decode_encode b Hb) as (s' & E' & D).
+      rewrite E in E'. assert (s = s') by (unfold Ok in E'; congruence). subst s'. eauto.
+  Qed.
+
+  (* the encoder is injective (a consequence of the round trip) *)
+  Theorem encode_inj b1 b2 s : bytes_ok b1 -> bytes_ok b2 -> encode b1 = Ok s -> encode b2 = Ok s -> b1 = b2.
+  Proof.
+    intros H1 H2 E1 E2.
+    destruct (decode_encode b1 H1) as (s1 & A1 & D1). destruct (decode_encode b2 H2) as (s2 & A2 & D2).
+    rewrite E1 in A1. rewrite E2 in A2.
+    assert (s = s1) by (unfold Ok in A1; congruence). assert (s = s2) by (unfold Ok in A2; congruence).
+    subst s1 s2. rewrite D1 in D2. unfold Ok in D2. congruence.
   Qed.
 End XmrProofs.
